@@ -72,6 +72,9 @@ def generate(rep, name, c, timeout=3400, keep=None, workers=1):
     return scripts
 
 
+EXTENSION_OPS = {"Navigate"}
+
+
 def run_and_validate(rep, scripts, label, flavour="experiment", procs=16, batch_lines=6000, only_ops=None):
     traces = pipeline.exec_scripts("harness.topo_adapter", "run_script", scripts, [{"flavour": flavour}], procs=procs)
     cfg = tlc.write_cfg(TRACE_CFG, {"Flavour": flavour})
@@ -88,11 +91,21 @@ def run_and_validate(rep, scripts, label, flavour="experiment", procs=16, batch_
         t = by_tid[tid]
         for (line, clause) in v["rejects"]:
             st = t["steps"][line - 1]
+            if st["op"]["op"] in EXTENSION_OPS:
+                # behaviour the specification covers beyond the listed properties: reported, never a verdict on a property
+                b = rep.extra.setdefault("beyond_listed_properties", {"ops": sorted(EXTENSION_OPS), "mismatches": 0, "samples": []})
+                b["mismatches"] += 1
+                if len(b["samples"]) < 3:
+                    b["samples"].append({"script": [s["op"] for s in t["steps"][:line]], "clause": clause, "observed": st["res"]})
+                continue
             if only_ops is not None and not only_ops(st["op"], clause):
                 rep.extra["rejections_left_to_other_checks"] = rep.extra.get("rejections_left_to_other_checks", 0) + 1
                 continue
             rep.rejects.append(Reject("topo", flavour, st["op"]["op"], clause, [s["op"] for s in t["steps"][:line]], line,
                                       {"observed_out": st["out"], "observed_res": st["res"]}))
+    nav = sum(1 for t in traces for s in t["steps"] if s["op"]["op"] in EXTENSION_OPS)
+    b = rep.extra.setdefault("beyond_listed_properties", {"ops": sorted(EXTENSION_OPS), "mismatches": 0, "samples": []})
+    b["lines_judged"] = b.get("lines_judged", 0) + nav
     for t in traces[:2]:
         rep.add_sample({"flavour": flavour, "script": [s["op"] for s in t["steps"][:6]],
                         "observed": [[s["out"], s["res"]] for s in t["steps"][:6]]})
